@@ -99,6 +99,7 @@ func (o *Operations) Move(from string, to string) error {
 		hdr.PAXRecords[records.STFSRecordVersion] = records.STFSRecordVersion1
 		hdr.PAXRecords[records.STFSRecordAction] = records.STFSRecordActionUpdate
 		hdr.PAXRecords[records.STFSRecordReplacesName] = dbhdr.Name
+		delete(hdr.PAXRecords, records.STFSRecordReplacesContent) // Don't inherit the record of the header's last update; a move carries no content
 
 		hdrs = append(hdrs, *hdr)
 
